@@ -30,7 +30,7 @@ ROOTS = ['root', 'conf', 'r']
 
 def gen_case(rng, i, tier):
     return {'attempt': ATTEMPTS[i % len(ATTEMPTS)] if i < 4 * len(ATTEMPTS) else rng.choice(ATTEMPTS), 'spelling': rng.choice(SPELLINGS), 'root': rng.choice(ROOTS),
-            'ext': rng.choice(['yaml', 'json', 'toml']), 'lib': rng.random() < 0.35, 'nested': rng.choice([None, 'dotdot', 'absolute', 'symlink', 'prefix']), 'salt': rng.randrange(1000)}
+            'ext': rng.choice(['yaml', 'json', 'toml']), 'lib': rng.random() < 0.35, 'nested': rng.choice([None, 'dotdot', 'absolute', 'symlink', 'prefix', 'same', 'same-twice', 'same-dot']), 'salt': rng.randrange(1000)}
 
 
 def fixed_cases(tier):
@@ -38,7 +38,7 @@ def fixed_cases(tier):
     for a in ATTEMPTS:
         for sp in SPELLINGS:
             out.append({'attempt': a, 'spelling': sp, 'root': 'conf', 'ext': 'yaml', 'lib': False, 'nested': None, 'salt': 0})
-        for n in ('dotdot', 'absolute', 'symlink', 'prefix', None):
+        for n in ('dotdot', 'absolute', 'symlink', 'prefix', 'same', 'same-twice', 'same-dot', None):
             out.append({'attempt': a, 'spelling': 'name', 'root': 'conf', 'ext': 'yaml', 'lib': True, 'nested': n, 'salt': 0})
     return out
 
@@ -203,6 +203,12 @@ def run_lib(ctx, res, case, mode):
         ops.append({'op': 'set_root', 'path': os.path.join(root, 'esc')})
     elif n == 'prefix':
         ops.append({'op': 'set_root', 'path': os.path.join(T, R + '-old')})
+    elif n == 'same':
+        ops.append({'op': 'set_root', 'path': root})
+    elif n == 'same-twice':
+        ops += [{'op': 'set_root', 'path': root}, {'op': 'set_root', 'path': root}]
+    elif n == 'same-dot':
+        ops.append({'op': 'set_root', 'path': os.path.join(root, '.')})
     ops.append({'op': 'merge_layers', 'path': os.path.join(root, inp)})
     # after an escape attempt also try to load a decoy directly
     ops.append({'op': 'merge_layers', 'path': os.path.join(T, 'outside', 'decoy.' + case['ext']), 'parser': 0})
